@@ -265,6 +265,39 @@ def check_property(prop, tier='quick', seed=0):
             r = mod.run(prop, eng, tier, seed)
             failures += r.get('failures', [])
             stats[eng['module']] = r
+        if tier == 'thorough' and sel:
+            # Exploration beyond the proofs (bounded, never counted as proved): the executable mirrors of the contracts
+            # are run on the real code with structured random inputs. Units with an open known finding are left out
+            # (their regression inputs are the known findings themselves). A failing input here is a real behaviour of
+            # the real code, reported as a violation of the unit's contract.
+            from . import replay
+            open_units = set(k['unit'] for k in load_known())
+            done_cases = set()
+            ex_stats = {'obligations': 0, 'discharged': 0, 'backend': 'replay exploration (bounded stand-in)', 'samples': [], 'bounded': [], 'cmds': []}
+            for u in sel:
+                if u.kind != 'fn' or u.id in open_units or u.id in set(f.unit for f in failures):
+                    continue
+                for case in replay.cases_for(u.id):
+                    if case in done_cases:
+                        continue
+                    done_cases.add(case)
+                    w = None
+                    for profile in ('dev', 'release'):
+                        w = replay.run_case(verus.REPO, case, seed, 100000, profile, timeout=900)
+                        if w and str(w.get('failing_input', '')).startswith('timeout after'):
+                            w = None   # the exploration budget ran out: inconclusive, not a failure
+                            ex_stats['bounded'].append('replay case %s (%s): stopped after 900 s' % (case, profile))
+                        if w:
+                            break
+                    ex_stats['bounded'].append('replay case %s: 100000 structured random inputs per profile (dev, release), seed %s: %s'
+                                               % (case, seed, 'FAILING INPUT' if w else 'no failing input'))
+                    if w:
+                        f = Failure(prop, u.id, 'explored-input', case, w.get('failing_input', '')[:200],
+                                    'the executable contract of %s fails on the real code for a concrete input' % u.id, engine='replay')
+                        f.witness = w
+                        failures.append(f)
+            replay.cleanup()
+            stats['explore'] = ex_stats
     except Undecided as ex:
         undecided = str(ex)
         # The annotations no longer apply to a changed unit (or the changed code left the verifier's subset).
